@@ -268,6 +268,12 @@ func ChildMain() {
 	}
 	ports := newPortAlloc()
 	cfg := &srv.Config{Servants: map[string]srv.ServantDef{}}
+	// long-run child (longrun.go): small objqueuemax and its own default timeout on the client
+	longrun := ParseLongRun(os.Getenv("VERIF_E2E_LONGRUN"))
+	if longrun != nil {
+		cfg.AsyncInvokeTimeout = longrun.AsyncTimeout
+		cfg.ClientExtra = map[string]string{"objqueuemax": fmt.Sprint(longrun.ObjQueueMax)}
+	}
 	if pool > 0 {
 		// worker pool: requests queue up behind busy workers (the framework default queue capacity
 		// of 10^7 entries would allocate 80 MB per adapter)
@@ -347,6 +353,19 @@ func ChildMain() {
 	newCtx := func() context.Context { return current.ContextWithClientCurrent(context.Background()) }
 	var recs []*Record
 	var scens []scenRun
+	if longrun != nil && len(FuncNames) > 0 {
+		if longrun.Seed == 0 {
+			longrun.Seed = smallSeed(rng)
+		}
+		recs = RunLongRun(longrun)
+		time.Sleep(300 * time.Millisecond)
+		serverGone()
+		judgeAll(o, res, fcfg, pool, recs, scens, taps)
+		if err := res.Write(o.Out); err != nil {
+			panic(err)
+		}
+		os.Exit(0)
+	}
 	if replay != nil && replay.Large != nil {
 		// replay of a large phase: same values; repeated until the violation shows (interleaving)
 		for i := 0; i < 6; i++ {
@@ -502,6 +521,9 @@ type Case struct {
 	Scenario *Scenario `json:"scenario,omitempty"`
 	// large phase (big.go): the whole phase is re-run on replay (the values follow from the seed;
 	// the interleaving of the callers does not, so a replay repeats the phase a few times)
+	// long-run phase (longrun.go): the sequential stream is re-run; Index = the offending call
+	LongRun *LongRun    `json:"longrun,omitempty"`
+	Index   int         `json:"index,omitempty"`
 	Large   *LargePhase `json:"large,omitempty"`
 	Big     *BigSpec    `json:"big,omitempty"`
 	GenSeed int64       `json:"gen_seed,omitempty"`
@@ -518,6 +540,9 @@ func judgeAll(o *common.Opts, res *common.Result, fcfg FilterCfg, pool int, recs
 		}
 		if r.Big != nil {
 			c.Large, c.Big = r.Phase, r.Big
+		}
+		if r.Long != nil {
+			c.Role, c.LongRun, c.Index = r.Role, r.Long, r.Index
 		}
 		return c
 	}
@@ -546,13 +571,26 @@ func judgeAll(o *common.Opts, res *common.Result, fcfg FilterCfg, pool int, recs
 			}
 		}
 	}
+	owBefore := make([]int, len(recs)+1) // one-way calls before position i
+	for i, r := range recs {
+		owBefore[i+1] = owBefore[i]
+		if r.Mode == "oneway" {
+			owBefore[i+1]++
+		}
+	}
+	sentOnWire := map[string]bool{}
+	for _, t := range taps {
+		t.SentVCalls(sentOnWire)
+	}
 	for i, r := range recs {
 		cs := caseOf(r)
 		errk := r.Script.ErrKind
 		if errk == "" {
 			errk = "ok"
 		}
-		if r.Big != nil {
+		if r.Long != nil {
+			res.Count(fmt.Sprintf("%s/longrun/%s/%d", fcfg, r.Long, r.Index), longClass(r), true)
+		} else if r.Big != nil {
 			res.Count(fmt.Sprintf("%s/pool%d/large/%s/%s/%d", fcfg, pool, r.Fn, r.Mode, r.Seed), bigClass(r), true)
 		} else if r.Role != "" {
 			res.Count(fmt.Sprintf("%s/pool%d/%s/%s/%d", fcfg, pool, r.Fn, r.Mode, r.Seed), poolClass(r), true)
@@ -562,6 +600,23 @@ func judgeAll(o *common.Opts, res *common.Result, fcfg FilterCfg, pool int, recs
 		// a call that ran out of time in the server's queue has no counterpart in the call path
 		// model (which describes served calls): implementation-side oracle only
 		timedOut := r.Role == "queued" && r.Short && (r.SrvCount != 1 || (r.Mode != "oneway" && r.GotErr != "nil"))
+		if r.Role == "timeout" || (r.Long != nil && r.Index >= 1500) {
+			// caller-side timeouts have no counterpart in the call path model; of a very long stream
+			// the first 1500 calls are compared with the model, all are judged on the implementation
+			timedOut = true
+		}
+		// long run: a call that never appeared on the wire although nothing was in flight
+		if r.Long != nil && r.Panic == "" && r.SrvCount == 0 && r.GotErr != "nil" && !sentOnWire[r.ID] {
+			locus := "not-sent"
+			if strings.Contains(r.GotErr, "queue is full") {
+				locus = "objqueue-leak"
+			}
+			nOW := owBefore[i]
+			what := fmt.Sprintf("call %d of a strictly sequential stream on one proxy (objqueuemax %d; %d one-way calls before it, nothing in flight) was refused and never sent: %s", r.Index, r.Long.ObjQueueMax, nOW, r.GotErr)
+			res.Violate(common.Violation{Signature: "C01:call-refused:" + locus, What: what, Case: common.Case{Stream: "e2e", Op: cs, Impl: trunc(what)}})
+			res.TracesValidated++
+			continue
+		}
 		if i%53 == 0 {
 			res.Sample(map[string]interface{}{"filters": fcfg.String(), "fn": r.Fn, "mode": r.Mode, "sent": trunc(strings.Join(r.SentIns, " ")), "got_ret": trunc(r.GotRet), "got_err": r.GotErr, "events": r.Events})
 		}
@@ -644,7 +699,7 @@ func judgeAll(o *common.Opts, res *common.Result, fcfg FilterCfg, pool int, recs
 			}
 		}
 		// byte-level correspondence of the argument encoding with the schema model
-		if mSchema != nil && r.ReqSBuf != "" && r.Panic == "" {
+		if mSchema != nil && r.ReqSBuf != "" && r.Panic == "" && !(r.Long != nil && r.Index >= 1500) {
 			checkBuffers(res, mSchema, cs, r)
 		}
 		res.TracesValidated++
